@@ -75,17 +75,6 @@ inductive Ctl where
   | sel (d : Nat) (rs : List Res) (ok : Bool)               -- `ok`: the results so far fit their events (`selOk`)
   deriving Inhabited
 
-/-- the stateless links: one item in, one item out -/
-def mapOf : Op → Option (MItem → MItem)
-  | .invert => some fun (m, x) => (if m.isSome then none else some .outside, x)
-  | .endSel => some fun (_, x) => (some .outside, x)
-  | .rename n => some (renameEv n)
-  | .attr n v => some (attrEv n v)
-  | .attrFn n f => some (attrFnEv n f)
-  | .mapBang all => some (mapBangEv all)
-  | .subst p r n => some (substEv p r n)
-  | _ => none
-
 def selStep : Nat → List Res → Bool → MItem → Ctl × List Act
   | 0, rs, ok, (none, x) => (.sel 0 rs ok, [.out (none, x)])
   | 0, rs, ok, (some _, x) =>
@@ -119,14 +108,6 @@ def runStep (pre post : List Act) (keep : Bool) : RunSt → MItem → RunSt × L
 def runFin (post : List Act) : RunSt → List Act
   | .idle => []
   | _ => post
-
-/-- `pre`, `post`, `keep` of the four operations -/
-def runParams : Op → Option (List Act × List Act × Bool)
-  | .replace c => some ([.inj c], [], false)
-  | .before c => some ([.inj c], [], true)
-  | .after c => some ([], [.inj c], true)
-  | .wrap t a kids => some (outs (inj ((Event.start t a :: kids).map .ev)), [.out (none, .ev (.end_ t))], true)
-  | _ => none
 
 def newSel (id : Nat) (acc : Bool) (x : MEv) : List Act :=
   (if acc then [] else [.reset id]) ++ [.app id x]
@@ -199,54 +180,113 @@ def proOf : Op → List Act
   | .cut id false => [.reset id]
   | _ => []
 
+def mapStep (g : MItem → MItem) : Ctl → MItem → Option (Ctl × List Act)
+  | .unit, p => some (.unit, [.out (g p)])
+  | _, _ => none
+
+def runStepC (pre post : List Act) (keep : Bool) : Ctl → MItem → Option (Ctl × List Act)
+  | .run st, p => some (.run (runStep pre post keep st p).1, (runStep pre post keep st p).2)
+  | _, _ => none
+
+def wrapPre (t : QName) (a : AttrList) (kids : Stream) : List Act :=
+  outs (inj ((Event.start t a :: kids).map .ev))
+
 /-- the code of a link from one `next()` on its input to the following one; `none` = it raises -/
 def stepOp : Op → Ctl → MItem → Option (Ctl × List Act)
-  | .select _, .sel d rs ok, p => some (selStep d rs ok p)
+  | .select _, c, p =>
+      (match c with
+       | .sel d rs ok => some (selStep d rs ok p)
+       | _ => none)
   | .selectFail, _, _ => none
-  | .empty, .flag false, (m, x) => some (.flag (m = some .enter), [.out (m, x)])
-  | .empty, .flag true, (m, x) =>
-      if m = some .exit then some (.flag false, [.out (m, x)]) else some (.flag true, [])
-  | .remove, .names names, (some .attr, x) => some (.names (names ++ attrNames x), [])
-  | .remove, .names names, (some _, _) => some (.names names, [])
-  | .remove, .names names, (none, x) =>
-      if !names.isEmpty && x.isStart then some (.names [], [.out (none, stripAttrs names x)])
-      else some (.names names, [.out (none, x)])
-  | .unwrap, .unit, (m, x) =>
-      some (.unit, if !(m = some .enter || m = some .exit) then [.out (m, x)] else [])
-  | .prepend c, .unit, (m, x) =>
-      some (.unit, if m = some .enter then [.out (m, x), .inj c] else [.out (m, x)])
-  | .append _, .last none, (m, x) =>
-      some (.last (if m = some .enter then some (m, x) else none), [.out (m, x)])
-  | .append c, .last (some _), (m, x) =>
-      if m = some .exit then some (.last none, [.inj c, .out (m, x)])
-      else some (.last (some (m, x)), [.out (m, x)])
-  | .copy id acc, .copy st pend, p => some (copyStep id acc st pend p)
-  | .cut id acc, .cut st broken names, p => cutStep id acc st broken names p
-  | .filter f, .fil st q, p => some (filStep f st q p)
-  | .buffer, _, p => some (.unit, [.out p])
-  | op, ctl, p =>
-      match mapOf op, ctl with
-      | some g, .unit => some (.unit, [.out (g p)])
-      | _, _ =>
-          match runParams op, ctl with
-          | some (pre, post, keep), .run st =>
-              let r := runStep pre post keep st p
-              some (.run r.1, r.2)
-          | _, _ => none
+  | .invert, c, p => mapStep (fun (m, x) => (if m.isSome then none else some .outside, x)) c p
+  | .endSel, c, p => mapStep (fun (_, x) => (some .outside, x)) c p
+  | .rename n, c, p => mapStep (renameEv n) c p
+  | .attr n v, c, p => mapStep (attrEv n v) c p
+  | .attrFn n f, c, p => mapStep (attrFnEv n f) c p
+  | .mapBang all, c, p => mapStep (mapBangEv all) c p
+  | .subst pt r n, c, p => mapStep (substEv pt r n) c p
+  | .buffer, c, p => mapStep id c p
+  | .empty, c, (m, x) =>
+      (match c with
+       | .flag false => some (.flag (m = some .enter), [.out (m, x)])
+       | .flag true => if m = some .exit then some (.flag false, [.out (m, x)]) else some (.flag true, [])
+       | _ => none)
+  | .remove, c, (m, x) =>
+      (match c with
+       | .names names =>
+           (match m with
+            | some .attr => some (.names (names ++ attrNames x), [])
+            | some _ => some (.names names, [])
+            | none =>
+                if !names.isEmpty && x.isStart then some (.names [], [.out (none, stripAttrs names x)])
+                else some (.names names, [.out (none, x)]))
+       | _ => none)
+  | .unwrap, c, (m, x) =>
+      (match c with
+       | .unit => some (.unit, if !(m = some .enter || m = some .exit) then [.out (m, x)] else [])
+       | _ => none)
+  | .prepend ct, c, (m, x) =>
+      (match c with
+       | .unit => some (.unit, if m = some .enter then [.out (m, x), .inj ct] else [.out (m, x)])
+       | _ => none)
+  | .append ct, c, (m, x) =>
+      (match c with
+       | .last none => some (.last (if m = some .enter then some (m, x) else none), [.out (m, x)])
+       | .last (some _) =>
+           if m = some .exit then some (.last none, [.inj ct, .out (m, x)])
+           else some (.last (some (m, x)), [.out (m, x)])
+       | _ => none)
+  | .replace ct, c, p => runStepC [.inj ct] [] false c p
+  | .before ct, c, p => runStepC [.inj ct] [] true c p
+  | .after ct, c, p => runStepC [] [.inj ct] true c p
+  | .wrap t a kids, c, p => runStepC (wrapPre t a kids) [.out (none, .ev (.end_ t))] true c p
+  | .copy id acc, c, p =>
+      (match c with
+       | .copy st pend => some (copyStep id acc st pend p)
+       | _ => none)
+  | .cut id acc, c, p =>
+      (match c with
+       | .cut st broken names => cutStep id acc st broken names p
+       | _ => none)
+  | .filter f, c, p =>
+      (match c with
+       | .fil st q => some (filStep f st q p)
+       | _ => none)
+
+def runFinC (post : List Act) : Ctl → Option (List Act)
+  | .run st => some (runFin post st)
+  | _ => none
 
 /-- the code of a link after its input is exhausted; `none` = it raises (`StopIteration` inside
     the generator of `select`) -/
 def finOp : Op → Ctl → Option (List Act)
-  | .select _, .sel d _ _ => if d = 0 then some [] else none
+  | .select _, c =>
+      (match c with
+       | .sel d _ _ => if d = 0 then some [] else none
+       | _ => none)
   | .selectFail, _ => none
-  | .append c, .last (some l) => some [.inj c, .out l]
-  | .copy _ _, .copy _ pend => some (outs pend)
-  | .cut _ _, .cut _ broken _ => some (if broken then [] else [.out brkItem])
-  | .filter f, .fil _ q => some (if q.isEmpty then [] else outs (flush f q))
-  | op, ctl =>
-      match runParams op, ctl with
-      | some (_, post, _), .run st => some (runFin post st)
-      | _, _ => some []
+  | .append ct, c =>
+      (match c with
+       | .last (some l) => some [.inj ct, .out l]
+       | .last none => some []
+       | _ => none)
+  | .replace _, c => runFinC [] c
+  | .before _, c => runFinC [] c
+  | .after ct, c => runFinC [.inj ct] c
+  | .wrap t _ _, c => runFinC [.out (none, .ev (.end_ t))] c
+  | .copy _ _, c =>
+      (match c with
+       | .copy _ pend => some (outs pend)
+       | _ => none)
+  | .cut _ _, c =>
+      (match c with
+       | .cut _ broken _ => some (if broken then [] else [.out brkItem])
+       | _ => none)
+  | .filter f, c =>
+      (match c with
+       | .fil _ q => some (if q.isEmpty then [] else outs (flush f q))
+       | _ => none)
+  | _, _ => some []
 
 /-! ### the pipeline -/
 
@@ -283,7 +323,7 @@ def execActs (F : Nat) (push : List Ctl → BufF → MItem → R) : List Act →
   | .reset id :: as, cs, b => execActs F push as cs (b.set id [])
   | .app id x :: as, cs, b => execActs F push as cs (b.set id (b id ++ [x]))
   | .inj (.buf id) :: as, cs, b =>
-      seqR (injLoop push id ((b id).length + 1 + F) 0 cs b) (execActs F push as)
+      seqR (injLoop push id (F + ((b id).length + 1)) 0 cs b) (execActs F push as)
   | .inj c :: as, cs, b =>
       seqR (pushList push (inj (content [] c)) cs b) (execActs F push as)
 
